@@ -15,6 +15,7 @@ from .process_level import sym_equal
 from .response_level import flat_item, show
 
 OPS = ['undefined', 'arity', 'custom', 'next', 'next-long', 'count', 'valid', 'next+count']
+OPS_PLUS = OPS + ['arity;next']
 
 
 class QueueCheck:
@@ -39,62 +40,73 @@ class QueueCheck:
         s.ops = ops
         valid = b':X\n' if s.t1 else b'*RST\n'
         custom_cmd = b':A:B\n' if s.t1 else b'ABC:DEF\n'
-        fifo = []
-        exp_out = []
-        msgs = []
-        script = {}
-        calls = 0
-        s.customs = []
+        def reference(policy_all):
+            # policy_all: after a unit that fails at execution the later units of the message still run (C06 admits all or none)
+            fifo = []
+            exp_out = []
+            msgs = []
+            script = {}
+            calls = 0
+            s.customs = []
 
-        def push(e):
-            if len(fifo) < s.cap:
-                fifo.append(e)
-            elif fifo:
-                fifo[-1] = ('unit', 'QueueOverflow')
+            def push(e):
+                if len(fifo) < s.cap:
+                    fifo.append(e)
+                elif fifo:
+                    fifo[-1] = ('unit', 'QueueOverflow')
 
-        def render(e):
-            if e[0] == 'unit':
-                err = mk_error(e[1])
-                return list(str(w.error_number(err)).encode()) + [44, 34] + list(deref(w.error_text(err)).items()) + [34]
-            if isinstance(e[1], int):
-                return list(str(e[1]).encode()) + [44, 34] + list(b'cu') + [34]
-            return [Token('int', e[1], 'i16'), 44, 34] + list(b'cu') + [34]
+            def render(e):
+                if e[0] == 'unit':
+                    err = mk_error(e[1])
+                    return list(str(w.error_number(err)).encode()) + [44, 34] + list(deref(w.error_text(err)).items()) + [34]
+                if isinstance(e[1], int):
+                    return list(str(e[1]).encode()) + [44, 34] + list(b'cu') + [34]
+                return [Token('int', e[1], 'i16'), 44, 34] + list(b'cu') + [34]
 
-        def pop():
-            if fifo:
-                return render(fifo.pop(0))
-            return list(b'0,""')
-        for k, op in enumerate(ops):
-            if op == 'undefined':
-                msgs.append(b'ZZ\n')
-                push(('unit', 'UndefinedHeader'))
-            elif op == 'arity':
-                msgs.append(valid[:-1] + b' 1\n')
-                push(('unit', 'UnexpectedNumberOfParameters'))
-            elif op == 'custom':
-                # (through process the response goes into a capacity-limited buffer: a concrete number keeps its length known)
-                n = z3.BitVec(f'cn{k}', 16) if not s.process else -77 - k
-                s.customs.append(n)
-                script[calls] = ('custom', n, list(b'cu'))
-                calls += 1
-                msgs.append(custom_cmd)
-                push(('custom', n))
-            elif op == 'next':
-                msgs.append(b'SYST:ERR?\n')
-                exp_out += pop() + [10]
-            elif op == 'next-long':
-                msgs.append(b'system:error:next?\n')
-                exp_out += pop() + [10]
-            elif op == 'count':
-                msgs.append(b'SYST:ERR:COUN?\n')
-                exp_out += list(str(len(fifo)).encode()) + [10]
-            elif op == 'valid':
-                msgs.append(valid)
-                calls += 1
-            else:
-                msgs.append(b'SYST:ERR:NEXT?;COUN?\n')
-                exp_out += pop() + [10]
-                exp_out += list(str(len(fifo)).encode()) + [10]
+            def pop():
+                if fifo:
+                    return render(fifo.pop(0))
+                return list(b'0,""')
+            for k, op in enumerate(ops):
+                if op == 'undefined':
+                    msgs.append(b'ZZ\n')
+                    push(('unit', 'UndefinedHeader'))
+                elif op == 'arity':
+                    msgs.append(valid[:-1] + b' 1\n')
+                    push(('unit', 'UnexpectedNumberOfParameters'))
+                elif op == 'custom':
+                    # (through process the response goes into a capacity-limited buffer: a concrete number keeps its length known)
+                    n = z3.BitVec(f'cn{k}', 16) if not s.process else -77 - k
+                    s.customs.append(n)
+                    script[calls] = ('custom', n, list(b'cu'))
+                    calls += 1
+                    msgs.append(custom_cmd)
+                    push(('custom', n))
+                elif op == 'next':
+                    msgs.append(b'SYST:ERR?\n')
+                    exp_out += pop() + [10]
+                elif op == 'next-long':
+                    msgs.append(b'system:error:next?\n')
+                    exp_out += pop() + [10]
+                elif op == 'count':
+                    msgs.append(b'SYST:ERR:COUN?\n')
+                    exp_out += list(str(len(fifo)).encode()) + [10]
+                elif op == 'valid':
+                    msgs.append(valid)
+                    calls += 1
+                elif op == 'arity;next':
+                    # a unit that fails at execution (surplus parameter) followed by a relative queue query in the same message
+                    msgs.append(b'SYST:ERR:COUN? 1;NEXT?\n')
+                    push(('unit', 'UnexpectedNumberOfParameters'))
+                    if policy_all:
+                        exp_out += pop() + [10]
+                else:
+                    msgs.append(b'SYST:ERR:NEXT?;COUN?\n')
+                    exp_out += pop() + [10]
+                    exp_out += list(str(len(fifo)).encode()) + [10]
+            return fifo, exp_out, msgs, script
+
+        fifo, exp_out, msgs, script = reference(True)
         if s.twin:
             exp_out = exp_out + [48]
         dev = w.new_device(s.dev)
@@ -113,6 +125,11 @@ class QueueCheck:
                 w.run(dev, list(m), wr)
         out = list(wr.items)
         eq, m = sym_equal(ex, tuple(flat_item(x) for x in out), tuple(flat_item(x) for x in exp_out))
+        if not eq and 'arity;next' in ops and not s.twin:
+            fifo2, exp_out2, _, _ = reference(False)
+            eq2, m2 = sym_equal(ex, tuple(flat_item(x) for x in out), tuple(flat_item(x) for x in exp_out2))
+            if eq2:
+                eq, m, fifo, exp_out = eq2, m2, fifo2, exp_out2
         viol = None
         if not eq:
             viol = (f'responses {show(out)!r} differ from the reference FIFO\'s {show(exp_out)!r}', m)
